@@ -19,6 +19,7 @@ CONSTANTS
   Order <- OrderAsIs
   CheckAccepts = TRUE
   SimCommits = TRUE
+  NextTwoLoads = FALSE
 SYMMETRY Sym
 PROPERTY QueriesAreReadOnly
 CHECK_DEADLOCK FALSE
